@@ -305,6 +305,10 @@ func TestVerifC09(t *testing.T) {
 			w.vw.Accept(b)
 			w.la = b
 			fed[b.n] = true
+			if !w.ready && w.windowCovered(fed) { // state sync: forward targets complete the window
+				w.ready = true
+				r.Count("ready-by-forward-accept")
+			}
 			r.Emit(l, w.dump())
 		case f[0] == "hist" && len(f) == 2 && blk(f[1]) != nil && w.vw != nil:
 			b := blk(f[1])
@@ -618,6 +622,38 @@ func (g *c09Gen) sequence(mode int) {
 				g.inIdx[g.la] = true
 			}
 			g.emit("new %d", g.la)
+			if rng.Chance(35) {
+				// state-sync route (syncer.go): new window over a partial index, then AcceptHistorical
+				// (backfill, newest → oldest) interleaved with Accept of new targets, then Complete()
+				cur := g.blks[g.la]
+				for k := 0; k < 2+rng.Intn(6); k++ {
+					if rng.Chance(50) {
+						if p, ok := g.blks[cur.parent]; ok && cur.height > 0 {
+							if !g.inIdx[p.n] {
+								g.emit("idx+ %d", p.n)
+								g.inIdx[p.n] = true
+							}
+							g.emit("hist %d", p.n)
+							cur = p
+						}
+					} else {
+						b := g.newBlock(g.blks[g.la], 2)
+						g.emit("idx+ %d", b.n)
+						g.inIdx[b.n] = true
+						g.emit("accept %d", b.n)
+						g.la = b.n
+						la = b
+					}
+					if rng.Chance(30) {
+						t := g.newBlock(g.blks[g.la], 1)
+						g.emit("idx+ %d", t.n)
+						g.inIdx[t.n] = true
+						g.emit("verify %d", t.n)
+					}
+				}
+				g.emit("complete %d", g.la)
+				continue
+			}
 			if rng.Chance(85) {
 				g.emit("complete %d", g.la)
 			}
